@@ -28,6 +28,9 @@ fn field_values(field: usize, size: usize, kind: usize) -> Vec<Value> {
         .map(|i| {
             let k = if kind == 3 { i % 3 } else { kind };
             match k {
+                // the same option listed again right after itself (and once more at the end for longer lists): two combinations
+                // that yield equal queries are still two of the n1 x ... x nm
+                5 => json!(format!("r{}_{}", field, if i + 1 == size && size > 2 { 0 } else { i / 2 })),
                 4 => json!({COLLIDING[field % 3]: format!("c{}_{}", field, i), format!("m{}", field): i}),
                 0 => {
                     if (field + i) % 2 == 0 {
@@ -325,7 +328,7 @@ fn check_fan_out(st: &mut Stats) -> u64 {
     lists.len() as u64
 }
 
-const KINDS: usize = 5;
+const KINDS: usize = 6;
 const NAMES: [&str; 3] = ["alpha", "beta", "gamma"];
 
 fn sizes(tier: Tier) -> Vec<usize> {
@@ -445,7 +448,7 @@ pub fn run(tier: Tier) -> i32 {
     finish(
         &info,
         st,
-        "state = one query object: 1-3 grid fields x sizes x element kinds {scalar, object with 1 key, object with 2 keys, mixed, object with a key that is also a field of the original query} x every key order of the grid section x {no, three} extra fields x grid section first/last; transition = one expansion through GridSearchPlugin::process or apply_input_plugins (flattening); oracle = reference Cartesian product compared as canonical multiset; non-trivial = product size > 1",
+        "state = one query object: 1-3 grid fields x sizes x element kinds {scalar, object with 1 key, object with 2 keys, mixed, object with a key that is also a field of the original query, scalars with an option repeated} x every key order of the grid section x {no, three} extra fields x grid section first/last; transition = one expansion through GridSearchPlugin::process or apply_input_plugins (flattening); oracle = reference Cartesian product compared as canonical multiset; non-trivial = product size > 1",
         true,
         json!({"max_grid_fields": max_fields, "sizes": sizes, "element_kinds": KINDS, "cases_in_worker_processes": cs.len()}),
         vec!["object-valued choices of different grid fields use disjoint keys (two grid fields offering the same key cannot yield one distinct query per combination under any order, so the statement does not define that case); an option whose key is also a field of the original query must replace it - otherwise different options yield the same query twice".into(),
